@@ -5,7 +5,7 @@ C03 / Cover, part 1: weakly convex counter-clockwise point lists in the plane.
 It is stated with `List.Pairwise` so that the `List` API does the index bookkeeping.
 Closed under: sublists, rotation, inserting a point on the segment between two neighbours.
 -/
-import Retro.Props.C03
+import Retro.Props.C03.Base
 import Mathlib.Data.List.Pairwise
 import Mathlib.Tactic.Linarith
 import Mathlib.Tactic.Ring
